@@ -6,18 +6,23 @@
 #include <yaclib/async/contract.hpp>
 #include <yaclib/async/future.hpp>
 #include <yaclib/async/wait.hpp>
+#include <yaclib/async/shared_contract.hpp>
+#include <yaclib/async/shared_future.hpp>
 #include <yaclib/async/wait_for.hpp>
+#include <yaclib/async/wait_until.hpp>
 
 #include <chrono>
 #include <optional>
 #include <vector>
+#include <yaclib_std/chrono>
 
 namespace {
 
 using vh::Payload;
 using R = yaclib::Result<Payload>;
 
-VRT_SCENARIO(wt, "Wait / WaitFor over n unique futures, then a second consumer operation on each") {
+template <bool Shared>
+void RunWait(vrt::Ctx& ctx) {
   vrt::NameOffsetAlias(vh::CallbackOffset(), "cb");
   Payload::ResetCounters();
   const int n = static_cast<int>(ctx.ParamInt("n", 1));
@@ -26,10 +31,18 @@ VRT_SCENARIO(wt, "Wait / WaitFor over n unique futures, then a second consumer o
   if (form != "wait") {
     ctx.EnableTimeChoice();
   }
-  std::vector<yaclib::Future<Payload>> fs;
-  std::vector<yaclib::Promise<Payload>> ps;
+  using FutureT = std::conditional_t<Shared, yaclib::SharedFuture<Payload>, yaclib::Future<Payload>>;
+  using PromiseT = std::conditional_t<Shared, yaclib::SharedPromise<Payload>, yaclib::Promise<Payload>>;
+  std::vector<FutureT> fs;
+  std::vector<PromiseT> ps;
   for (int i = 0; i != n; ++i) {
-    auto [f, p] = yaclib::MakeContract<Payload>();
+    auto [f, p] = [] {
+      if constexpr (Shared) {
+        return yaclib::MakeSharedContract<Payload>();
+      } else {
+        return yaclib::MakeContract<Payload>();
+      }
+    }();
     vh::NameCore(f.GetCore().Get(), "c" + std::to_string(i + 1));
     fs.push_back(std::move(f));
     ps.push_back(std::move(p));
@@ -57,16 +70,31 @@ VRT_SCENARIO(wt, "Wait / WaitFor over n unique futures, then a second consumer o
         } else {
           yaclib::Wait(fs[0], fs[1], fs[2]);
         }
-      } else if (form == "wait_for") {
-        if (n == 1) {
-          ok = yaclib::WaitFor(1ms, fs[0]);
-        } else if (n == 2) {
-          ok = yaclib::WaitFor(1ms, fs[0], fs[1]);
+      } else if (form == "wait_it") {
+        yaclib::Wait(fs.begin(), fs.end());
+      } else if constexpr (!Shared) {  // timed waits do not exist for SharedFuture (its callbacks cannot be reset)
+        if (form == "wait_for") {
+          if (n == 1) {
+            ok = yaclib::WaitFor(1ms, fs[0]);
+          } else if (n == 2) {
+            ok = yaclib::WaitFor(1ms, fs[0], fs[1]);
+          } else {
+            ok = yaclib::WaitFor(1ms, fs[0], fs[1], fs[2]);
+          }
+        } else if (form == "wait_until") {
+          const auto deadline = yaclib_std::chrono::steady_clock::now() + 1ms;
+          if (n == 1) {
+            ok = yaclib::WaitUntil(deadline, fs[0]);
+          } else if (n == 2) {
+            ok = yaclib::WaitUntil(deadline, fs[0], fs[1]);
+          } else {
+            ok = yaclib::WaitUntil(deadline, fs[0], fs[1], fs[2]);
+          }
+        } else if (form == "wait_until_it") {
+          ok = yaclib::WaitUntil(yaclib_std::chrono::steady_clock::now() + 1ms, fs.begin(), fs.end());
         } else {
-          ok = yaclib::WaitFor(1ms, fs[0], fs[1], fs[2]);
+          ok = yaclib::WaitFor(1ms, fs.begin(), fs.end());
         }
-      } else {
-        ok = yaclib::WaitFor(1ms, fs.begin(), fs.end());
       }
       VRT_STACK_RETURN();
       std::string ready;
@@ -80,14 +108,26 @@ VRT_SCENARIO(wt, "Wait / WaitFor over n unique futures, then a second consumer o
       auto& f = fs[static_cast<std::size_t>(i)];
       if (second == "get") {
         vrt::Api api{"Get"};
-        auto r = std::move(f).Get();
-        vrt::Obs("get", std::to_string(i + 1) + ":" + vh::Desc(r));
+        if constexpr (Shared) {
+          auto r = f.Get();  // a copy: the shared state keeps the Result
+          vrt::Obs("get", std::to_string(i + 1) + ":" + vh::Desc(r));
+        } else {
+          auto r = std::move(f).Get();
+          vrt::Obs("get", std::to_string(i + 1) + ":" + vh::Desc(r));
+        }
       } else {
         vrt::Api api{"ThenInline"};
-        nexts[static_cast<std::size_t>(i)].emplace(std::move(f).ThenInline([i](R&& r) {
-          vrt::Obs("call", std::to_string(i + 1) + ":" + vh::Desc(r));
-          return 1;
-        }));
+        if constexpr (Shared) {
+          nexts[static_cast<std::size_t>(i)].emplace(f.ThenInline([i](const R& r) {
+            vrt::Obs("call", std::to_string(i + 1) + ":" + vh::Desc(r));
+            return 1;
+          }));
+        } else {
+          nexts[static_cast<std::size_t>(i)].emplace(std::move(f).ThenInline([i](R&& r) {
+            vrt::Obs("call", std::to_string(i + 1) + ":" + vh::Desc(r));
+            return 1;
+          }));
+        }
       }
     }
   });
@@ -102,6 +142,15 @@ VRT_SCENARIO(wt, "Wait / WaitFor over n unique futures, then a second consumer o
   fs.clear();
   ctx.Final("live", Payload::live);
   ctx.Final("read_moved", Payload::read_moved);
+}
+
+// kind = unique (default) | shared: SharedFuture inputs (the static / dynamic shared events; monitors only)
+VRT_SCENARIO(wt, "Wait / WaitFor / WaitUntil over n unique or shared futures, then a second consumer operation on each") {
+  if (ctx.Param("kind", "unique") == "shared") {
+    RunWait<true>(ctx);
+  } else {
+    RunWait<false>(ctx);
+  }
 }
 
 }  // namespace
